@@ -202,6 +202,14 @@ func (v *collator_[V]) compareMaps(first ref.Value, second ref.Value) bool {
 }
 
 func (v *collator_[V]) compareIntrinsics(first, second ref.Value) bool {
+	switch first.Kind() {
+	case ref.Float32, ref.Float64:
+		if second.Kind() == first.Kind() {
+			// Floating point values are equal exactly when they rank as equal
+			// (a NaN is equal to a NaN).
+			return v.rankFloats(first.Float(), second.Float()) == EqualRank
+		}
+	}
 	return first.Interface() == second.Interface()
 }
 
@@ -429,6 +437,16 @@ func (v *collator_[V]) rankComplex(first, second complex128) Rank {
 }
 
 func (v *collator_[V]) rankFloats(first, second float64) Rank {
+	// A NaN is ranked before every number and as equal to another NaN.
+	switch {
+	case first != first:
+		if second != second {
+			return EqualRank
+		}
+		return LesserRank
+	case second != second:
+		return GreaterRank
+	}
 	if first < second {
 		return LesserRank
 	}
